@@ -870,3 +870,43 @@ def check_C09(tier, seed):
                      "lease with a 1ns timeout), never inferred from wall-clock time",
                      "a request carrying a sync id while no sync is running is a plain write (as the handler documents)"]
     return v.finish(rule=RULE_REPLAY)
+
+
+# ----------------------------------------------------------------------------
+# C17
+
+def eh_stage(v, sd, binary, name, mode, max_b, pages, retries=(0,)):
+    with open(os.path.join(sd, name + ".tla"), "w") as fh:
+        fh.write("---- MODULE %s ----\nEXTENDS ErrorHandling\nMC_Pages == %s\nMC_Retries == %s\n====\n"
+                 % (name, verif.tla_value(set(pages)), verif.tla_value(set(retries))))
+    with open(os.path.join(sd, name + ".cfg"), "w") as fh:
+        fh.write("SPECIFICATION Spec\nCONSTANTS MaxB = %d PageSizes <- MC_Pages MaxRetriesSet <- MC_Retries Mode = \"%s\"\n"
+                 "INVARIANTS Complement ReportedOnce StopsAtMax NoLoss BoundedReruns\nCONSTRAINT EmitCase\nCHECK_DEADLOCK FALSE\n"
+                 % (max_b, mode))
+    out = os.path.join(v.wd, name + ".out")
+    st = verif.run_tlc(sd, name, out, workers=4)
+    v.add_tlc(st)
+    tot, results = verif.replay(binary, v.wd, out, label=name, test="TestErrorHandling")
+    v.add_replay(tot, results, label=name,
+                 classify=lambda r, d: "C17-stale-last-error" if d["kind"] == "second-run-result" else None)
+    os.remove(out)
+
+
+def check_C17(tier, seed):
+    v = Verdict("C17", tier, seed)
+    v.wd = verif.workdir("C17")
+    sd = verif.spec_copy(v.wd)
+    binary = verif.build_harness(v.wd)
+    thorough = tier == "thorough"
+    # every failing subset x maxItems x page size for runs of up to MaxB entities
+    eh_stage(v, sd, binary, "C17_log", "log", 7 if thorough else 5, (1, 2, 3, 10) if thorough else (2, 10))
+    # reRun: retries x number of executions the sink keeps failing
+    eh_stage(v, sd, binary, "C17_rerun", "rerun", 1, (10,), retries=(1, 2) if thorough else (1, 2))
+    v.assumptions = ["the sink is a scripted wrapper around the job's DatasetSink that rejects any batch containing an entity "
+                     "of the failing set (log cases) or every batch of the first k executions (reRun cases)",
+                     "handler invocations are observed through the job runner's logger (zap observer)",
+                     "reRun delay is 1 s (the smallest the configuration allows)"]
+    return v.finish(rule="cases = every initial state TLC enumerates from spec/ErrorHandling.tla (entity count, failing subset, "
+                    "maxItems, page size | retries, failing executions); each is run as a real job; delivered and reported "
+                    "sequences, outcome, recorded error, token / number of executions compared. evaluations = compared "
+                    "answers; distinct_nontrivial = cases")
